@@ -1,7 +1,7 @@
 use std::{collections::BTreeMap, ops::RangeBounds, str::FromStr};
 
 use js_int::{Int, UInt};
-use regex::bytes::Regex;
+use regex::bytes::RegexBuilder;
 #[cfg(feature = "unstable-msc3931")]
 use ruma_macros::StringEnum;
 use serde::{Deserialize, Serialize};
@@ -404,7 +404,15 @@ impl StrExt for str {
             // The word characters in ASCII compatible mode (with the `-u` flag) match the
             // definition in the spec: any character not in the set `[A-Za-z0-9_]`.
             let regex = format!(r"(?-u:^|\W|\b){}(?-u:\b|\W|$)", chunks.concat());
-            let re = Regex::new(&regex).expect("regex construction should succeed");
+            // The compiled size grows with the number of `?` in the pattern (every `(?s:.)` is
+            // repeated that many times), so the default size limit would reject a pattern with
+            // about ten thousand question marks. The expression is built from escaped literals
+            // and counted repetitions only, so the size limit is the only way construction can
+            // fail.
+            let re = RegexBuilder::new(&regex)
+                .size_limit(usize::MAX)
+                .build()
+                .expect("regex construction should succeed");
             re.is_match(self.as_bytes())
         } else {
             match self.find(pattern) {
